@@ -1,9 +1,13 @@
 package llvc
 
 import (
+	"bytes"
+	"context"
 	"fmt"
+	"os/exec"
 	"sort"
 	"strings"
+	"time"
 
 	"bngvc/smt"
 )
@@ -109,7 +113,9 @@ func bvU64(v string) (uint64, bool) {
 func (o *Obligation) extractModel(solver *smt.Solver) *Model {
 	res := o.res
 	frameCap := 2048
-	for attempt := 0; attempt < 2; attempt++ {
+	small := smt.App(smt.Bool, "bvule", res.pktLen0, lit(1514, 64)) // prefer an Ethernet-sized frame
+	for attempt := 0; attempt < 3; attempt++ {
+		preferSmall := attempt == 0
 		// every probed term gets a nullary define-fun name so that all
 		// solvers echo it identically in (get-value ...)
 		res.mu.Lock()
@@ -171,18 +177,28 @@ func (o *Obligation) extractModel(solver *smt.Solver) *Model {
 			add(smt.Select(res.ctx0, lit(uint64(i), 64)))
 		}
 		var q string
+		as := o.facts.list()
+		if preferSmall {
+			as = append(as, small)
+		}
 		if o.cex != nil {
-			q = res.ctx.SatQuery(o.facts.list(), smt.And(o.pc, *o.cex), gv)
+			q = res.ctx.SatQuery(as, smt.And(o.pc, *o.cex), gv)
 		} else {
-			q = res.ctx.Query(o.facts.list(), o.pc, o.goal, gv)
+			q = res.ctx.Query(as, o.pc, o.goal, gv)
 		}
 		names := map[string]string{}
 		for k, v := range res.probeNames {
 			names[k] = v
 		}
 		res.mu.Unlock()
-		r := solver.Check(q)
+		r := modelSolve(q, solver.Timeout)
+		if DebugModelQuery != nil {
+			DebugModelQuery(q, r)
+		}
 		if r.Status != "sat" || r.Values == nil {
+			if preferSmall {
+				continue
+			}
 			return nil
 		}
 		val := func(t smt.Term) (string, bool) {
@@ -207,7 +223,7 @@ func (o *Obligation) extractModel(solver *smt.Solver) *Model {
 			x, _ := bvU64(v)
 			m.Len = int(x)
 		}
-		if m.Len > frameCap && attempt == 0 {
+		if m.Len > frameCap && attempt < 2 {
 			frameCap = m.Len
 			continue
 		}
@@ -314,4 +330,125 @@ func (m *Model) Summary() string {
 		}
 	}
 	return b.String()
+}
+
+// DebugModelQuery, when set, receives every model-extraction query and its result.
+var DebugModelQuery func(q string, r smt.Result)
+
+// ModelSolvers is the order in which solvers are asked for counterexample
+// models.  z3-new (5.1.0) is last on purpose: on these queries (UFs returning
+// arrays) it was observed to print (get-value) results that contradict the
+// asserted formula (e.g. a return value of 0 under the assertion "return
+// value not in {0,2}"), while z3 4.8.12 and cvc5 agree with each other and
+// with the native replay.
+var ModelSolvers = [][]string{
+	{"z3", "-in", "-smt2"},
+	{"cvc5", "--lang=smt2", "--produce-models"},
+	{"z3-new", "-in", "-smt2"},
+}
+
+// modelSolve runs the model-extraction query on the model solvers in turn and
+// parses the (get-value) answer of the first one that says sat.
+func modelSolve(q string, timeout time.Duration) smt.Result {
+	t0 := time.Now()
+	for _, argv := range ModelSolvers {
+		ctx, cancel := context.WithTimeout(context.Background(), timeout+2*time.Second)
+		cmd := exec.CommandContext(ctx, argv[0], argv[1:]...)
+		cmd.Stdin = strings.NewReader(q)
+		var ob bytes.Buffer
+		cmd.Stdout = &ob
+		_ = cmd.Run()
+		cancel()
+		out := strings.TrimSpace(ob.String())
+		if !strings.HasPrefix(out, "sat") {
+			if strings.HasPrefix(out, "unsat") {
+				return smt.Result{Status: "unsat", Solver: argv[0], TimeS: time.Since(t0).Seconds()}
+			}
+			continue
+		}
+		vals := parseGetValue(out[3:])
+		if len(vals) == 0 {
+			continue
+		}
+		return smt.Result{Status: "sat", Solver: argv[0], TimeS: time.Since(t0).Seconds(), Values: vals}
+	}
+	return smt.Result{Status: "unknown", Solver: "model-solvers", TimeS: time.Since(t0).Seconds()}
+}
+
+// parseGetValue parses "((name value) ...)" where name is a symbol and value
+// an atom or a parenthesised literal such as (_ bv5 32).
+func parseGetValue(s string) map[string]string {
+	out := map[string]string{}
+	i, n := 0, len(s)
+	skip := func() {
+		for i < n && (s[i] == ' ' || s[i] == '\n' || s[i] == '\t' || s[i] == '\r') {
+			i++
+		}
+	}
+	atom := func() string {
+		j := i
+		if i < n && s[i] == '|' {
+			i++
+			for i < n && s[i] != '|' {
+				i++
+			}
+			i++
+			return s[j:i]
+		}
+		for i < n && !strings.ContainsRune(" \n\t\r()", rune(s[i])) {
+			i++
+		}
+		return s[j:i]
+	}
+	sexp := func() string {
+		// s[i] == '('
+		j, d := i, 0
+		for i < n {
+			if s[i] == '(' {
+				d++
+			} else if s[i] == ')' {
+				d--
+				if d == 0 {
+					i++
+					break
+				}
+			}
+			i++
+		}
+		return strings.Join(strings.Fields(s[j:i]), " ")
+	}
+	skip()
+	if i >= n || s[i] != '(' {
+		return out
+	}
+	i++
+	for {
+		skip()
+		if i >= n || s[i] == ')' {
+			return out
+		}
+		if s[i] != '(' {
+			return out
+		}
+		i++
+		skip()
+		var name string
+		if i < n && s[i] == '(' {
+			name = sexp()
+		} else {
+			name = atom()
+		}
+		skip()
+		var val string
+		if i < n && s[i] == '(' {
+			val = sexp()
+		} else {
+			val = atom()
+		}
+		skip()
+		if i < n && s[i] == ')' {
+			i++
+		}
+		out[name] = val
+	}
 }
